@@ -259,8 +259,11 @@ class CRS:
         if self._crs is other._crs:
             return True
 
-        if self._epsg and other._epsg:
-            return self._epsg == other._epsg
+        # Only a mismatch of known codes decides here: ``_epsg`` may have been
+        # identified lazily by ``to_epsg()`` (approximate match), a positive match
+        # would make ``==`` depend on whether ``to_epsg()`` was called before.
+        if self._epsg and other._epsg and self._epsg != other._epsg:
+            return False
 
         if self._str == other._str:
             return True
